@@ -51,7 +51,10 @@ def main():
         meta["ran"].append({"cmd": demo + "   (unchanged tree)", "exit": rc0, "tail": out0.strip()[-300:]})
         rc, out = sh("git apply _seed/%s/patch.diff" % idx, wt)
         if rc:
-            print("patch does not apply:", out)
+            rc, out = sh("git apply -3 _seed/%s/patch.diff" % idx, wt)
+            meta["ran"].append({"cmd": "git apply -3 (the base moved by later fix: commits)", "exit": rc})
+        if rc:
+            print("%s: patch does not apply:" % sid, out[:200])
             return 2
         rct, outt = sh("/venv/bin/python -m pytest -q -p no:cacheprovider --no-cov 2>&1 | tail -3", wt, 900)
         meta["ran"].append({"cmd": "pytest (patched)", "exit": rct, "tail": outt.strip()[-200:]})
